@@ -152,8 +152,78 @@ pub fn to_witness_node(node: &ConstructNode, values: WitnessValues) -> Arc<Witne
         inference_context: types::Context::new(),
         values,
     };
-    node.convert::<InternalSharing, _, _>(&mut populator)
-        .unwrap()
+    let populated = node
+        .convert::<InternalSharing, _, _>(&mut populator)
+        .unwrap();
+    prune_witness_values(&populated)
+}
+
+/// Shrink each populated witness value to the type that Simplicity infers for its node.
+///
+/// Simplicity infers the type of a witness node from the surrounding program alone.
+/// Parts of a witness that the program never inspects are of unit type on the Simplicity level,
+/// regardless of the type that was declared in Simfony. A value of the declared type would be
+/// ill-typed inside the finalized program: its encoding cannot be decoded and executing it
+/// corrupts the Bit Machine. Pruning removes exactly the parts that the program never reads.
+fn prune_witness_values(node: &Arc<WitnessNode<Elements>>) -> Arc<WitnessNode<Elements>> {
+    struct Pruner {
+        inference_context: types::Context,
+    }
+
+    impl<J: Jet> Converter<node::Construct<J>, node::Construct<J>> for Pruner {
+        type Error = types::Error;
+
+        fn convert_witness(
+            &mut self,
+            data: &PostOrderIterItem<&WitnessNode<J>>,
+            witness: &Option<simplicity::Value>,
+        ) -> Result<Option<simplicity::Value>, Self::Error> {
+            let Some(value) = witness else {
+                return Ok(None);
+            };
+            let inferred_ty = data.node.arrow().target.finalize()?;
+            let pruned = value
+                .prune(&inferred_ty)
+                .unwrap_or_else(|| value.shallow_clone());
+            Ok(Some(pruned))
+        }
+
+        fn convert_disconnect(
+            &mut self,
+            _: &PostOrderIterItem<&WitnessNode<J>>,
+            _: Option<&Arc<WitnessNode<J>>>,
+            _: &Option<Arc<WitnessNode<J>>>,
+        ) -> Result<Option<Arc<WitnessNode<J>>>, Self::Error> {
+            Ok(None)
+        }
+
+        fn convert_data(
+            &mut self,
+            _: &PostOrderIterItem<&WitnessNode<J>>,
+            inner: Inner<
+                &Arc<WitnessNode<J>>,
+                J,
+                &Option<Arc<WitnessNode<J>>>,
+                &Option<simplicity::Value>,
+            >,
+        ) -> Result<WitnessData<J>, Self::Error> {
+            let inner = inner
+                .map(Arc::as_ref)
+                .map(WitnessNode::<J>::cached_data)
+                .map_witness(Option::<simplicity::Value>::clone);
+            WitnessData::from_inner(&self.inference_context, inner)
+        }
+    }
+
+    let mut pruner = Pruner {
+        inference_context: types::Context::new(),
+    };
+    match node.convert::<InternalSharing, _, _>(&mut pruner) {
+        Ok(pruned) => pruned,
+        // The types of the node have been inferred before, so this is unreachable.
+        // Fall back to the unpruned node to stay infallible.
+        Err(_) => Arc::clone(node),
+    }
 }
 
 /// Copy of [`node::ConstructData`] with an implementation of [`WitnessConstructible<WitnessName>`].
